@@ -1366,3 +1366,136 @@ def block_designs_are_collected_from_the_assemblies_once_each(given: int):
     else:
         assert list(bp.blockDesigns.keys()) == ["grid plate", "fuel", "plenum"], "each design once, first use first"
         assert [d for d in bp.blockDesigns] == [b1, b2, b3] and all(same(x, y) for x, y in zip(bp.blockDesigns, [b1, b2, b3]))
+
+
+# ------------------------------------------------------------------------------------------------ block construction
+Component = repo("armi.reactor.components.component:Component")
+
+
+class CompProbe(Component):
+    """a constructed component (collaborator of BlockBlueprint.construct; a Component as far as isinstance goes): name,
+    multiplicity, bounding diameter, the modifications it was built with, and a log of what the block blueprint does with it"""
+
+    def getDimension(self, key, Tc=None, cold=False):
+        return self.dims[key]
+
+    def setDimension(self, key, val, retainLink=False, cold=True):
+        self.dims[key] = val
+
+    def resolveLinkedDims(self, components):
+        self.linkedWith = list(components.keys())
+
+    def __lt__(self, other):
+        return self.dims["od"] < other.dims["od"]
+
+
+def constructComponentContract(self, blueprint, matMods, inputHeightsConsideredHot):
+    """contract of ComponentBlueprint.construct used here: a component of that name with the blueprint's multiplicity and size, built
+    with these modifications (what goes into it: component_keywords_are_the_blueprint_values, material_gets_isotopics_first...)"""
+    return new(CompProbe, name=self.name, dims={"mult": self.multIn, "od": self.odIn}, mods=dict(matMods), hot=inputHeightsConsideredHot,
+               spatialLocator=None, linkedWith=None, p=new(PMap, mergeWith=None))
+
+
+def modifierNamesContract(self, c):
+    """contract of BlockBlueprint._getMaterialModsFromBlockChildren: the modification names the child's material understands"""
+    return {"TD_frac", "U235_wt_frac"}
+
+
+class BlockProbe2:
+    """the block class chosen for the outermost component (collaborator): children in the order added, parameters, a log"""
+
+    def __init__(self, name):
+        self.name = name
+        self.p = new(PMapB, paramDefs=new(PDefs), nPins=None, axMesh=None, height=None, heightBOL=None, xsType=None, buGroup=None)
+        self.children = []
+        self.log = []
+        self.spatialGrid = None
+
+    def setType(self, typ, flags=None):
+        self.log.append(("setType", typ, flags))
+
+    def add(self, c):
+        self.children.append(c)
+
+    def getNumPins(self):
+        return 17
+
+    def setBuLimitInfo(self):
+        self.log.append("buLimit")
+
+    def iterComponents(self):
+        return iter(self.children)
+
+    def verifyBlockDims(self):
+        self.log.append(("verify", len(self.children)))
+
+
+def blockClassContract(self, outerComponent):
+    """contract of BlockBlueprint._getBlockClass: some block class; records which component was taken as the outermost"""
+    self.outer = outerComponent.name
+    return BlockProbe2
+
+
+CONSTRUCT = {"armi.reactor.blueprints.componentBlueprint:ComponentBlueprint.construct": "constructComponentContract",
+             "armi.reactor.blueprints.blockBlueprint:BlockBlueprint._getMaterialModsFromBlockChildren": "modifierNamesContract",
+             "armi.reactor.blueprints.blockBlueprint:BlockBlueprint._getBlockClass": "blockClassContract"}
+
+
+def pinDesign(name, latticeIDs, mult, od):
+    return new(ComponentBlueprint, name=name, shape="Circle", latticeIDs=latticeIDs, multIn=mult, odIn=od)
+
+
+@lemma(overrides=BLK, stubs=CONSTRUCT, gen={"nFuel": (1, 3), "multCase": (0, 3), "modCase": (0, 3), "h": (1.0, 100.0), "mesh": (1, 5),
+                                            "factor": (1, 3), "k": (0, 2)})
+def block_is_built_as_the_block_design_says(nFuel: int, multCase: int, modCase: int, h: float, mesh: int, factor: int, k: int,
+                                            e: float, t: float, hot: bool):
+    """BlockBlueprint.construct (+ _getGridDesign, GridBlueprint.construct / getMultiLocator, _checkByComponentMaterialInput,
+    _filterMaterialInput, _getBlockwiseMaterialModifierOptions, _mergeComponents, _setBlueprintNumberOfAxialMeshes): a block design
+    with the components fuel (lattice id 1), clad (lattice id 2) and duct (not in the lattice) on a pin lattice with nFuel = 1..3
+    fuel positions and one clad position.  The block has the components in the SPECIFIED ORDER, each built with the
+    block-wide modifications overridden by its own; fuel gets the lattice locations of its id and their NUMBER as
+    multiplicity (when its blueprint gives none or 1), an explicit multiplicity that contradicts the lattice is refused; the
+    duct keeps its multiplicity and has no location; links are resolved when all components exist; the outermost component
+    (largest) chooses the block class; height, xs type, mesh points x refinement factor, name and grid are as specified;
+    a modification name no material of the block understands is refused.
+    Collaborators by contract: ComponentBlueprint.construct (CompProbe), _getMaterialModsFromBlockChildren, _getBlockClass
+    (BlockProbe2); parameters PMap / PMapB / PDefs."""
+    nFuel, multCase, modCase = choose(nFuel, 1, 3), choose(multCase, 0, 3), choose(modCase, 0, 3)
+    assume(mesh >= 1 and 1 <= factor)
+    k = (0, 7, 12)[choose(k, 0, 2)]
+    cells = [(0, 0), (1, 0), (0, 1)][:nFuel]
+    contents = {c: "1" for c in cells}
+    contents[(1, 1)] = "2"
+    grid = hexGridDesign(contents, "full", "hex", None, 1.2)
+    grid.name = "pins"
+    fuelMult = (None, 1.0, nFuel, nFuel + 1)[multCase]
+    blk = ymap(BlockBlueprint, [("fuel", pinDesign("fuel", ["1"], fuelMult, 0.8)), ("duct", pinDesign("duct", None, 1.0, 15.0)),
+                                ("clad", pinDesign("clad", [2], None, 1.0))],
+               name="fuel block", gridName="pins", flags=None, axialExpTargetComponent=None, buGroup=None)
+    bp = new(Bp, gridDesigns={"pins": grid})
+    matIn = [{}, {"byBlock": {"TD_frac": t, "U235_wt_frac": e}, "fuel": {"TD_frac": 0.5}}, {"byBlock": {"ZR_wt_frac": e}},
+             {"byBlock": {}, "clad": {"ZR_wt_frac": e}}][modCase]
+    cs = {"inputHeightsConsideredHot": hot, "axialMeshRefinementFactor": factor}
+    try:
+        b = blk.construct(cs, bp, k, mesh, h, "B", matIn)
+        ok = True
+    except ValueError:
+        ok = False
+    assert ok == (multCase != 3 and modCase <= 1), "contradicting multiplicity / unknown modification refused"
+    if ok:
+        assert isinstance(b, BlockProbe2) and [c.name for c in b.children] == ["fuel", "duct", "clad"], "components in the specified order"
+        fuel, duct, clad = b.children
+        assert fuel.dims["mult"] == nFuel and clad.dims["mult"] == 1, "multiplicity = number of lattice positions"
+        assert [(l.i, l.j) for l in fuel.spatialLocator] == cells and [(l.i, l.j) for l in clad.spatialLocator] == [(1, 1)]
+        assert duct.dims["mult"] == 1.0 and duct.spatialLocator is None, "not in the lattice: as specified"
+        if modCase == 1:
+            assert fuel.mods == {"TD_frac": 0.5, "U235_wt_frac": e} and clad.mods == {"TD_frac": t, "U235_wt_frac": e} and duct.mods == clad.mods
+        else:
+            assert fuel.mods == {} and clad.mods == {} and duct.mods == {}
+        assert fuel.hot == hot
+        assert all(c.linkedWith == ["fuel", "duct", "clad"] for c in b.children), "links resolved once every component exists"
+        assert blk.outer == "duct", "the largest component bounds the block"
+        assert b.name == ("block-bol-000", "block-bol-007", "block-bol-012")[(0, 7, 12).index(k)] and eq(b.p.height, h) and eq(b.p.heightBOL, h) and b.p.xsType == "B"
+        assert b.p.axMesh == mesh * factor and b.p.nPins == 17
+        assert b.log == [("setType", "fuel block", None), "buLimit", ("verify", 3)]
+        assert same(b.spatialGrid, fuel.spatialLocator.grid) and eq(b.spatialGrid.pitch, 1.2), "the lattice of the block design"
